@@ -27,6 +27,10 @@ func runC03(c *an.Ctx) {
 	r03e(c)
 	r03f(c)
 	r03g(c)
+	r03h(c)
+	// shared with C11: the ERROR of a critical task is not lost in the fold (children read and folded inside the
+	// critical section that stores the result)
+	c.As(map[string]string{"R11b": "R03j", "R11d": "R03i"}, func() { r11d(c, r11b(c)) })
 }
 
 // constsLeadingTo: TaskState/other enum constants k such that an `x == k` test's true edge leads into (dominates) target's block.
@@ -52,7 +56,7 @@ func constsLeadingTo(fn *ssa.Function, target ssa.Instruction, typeSuffix string
 		}
 		t := b.Succs[0]
 		if t == target.Block() || t.Dominates(target.Block()) {
-			if v, ok := constant.Int64Val(cst.Value); ok {
+			if v, ok := an.Int64Of(cst.Value); ok {
 				out[v] = true
 			}
 		}
@@ -327,8 +331,24 @@ func r03d(c *an.Ctx) {
 						if t.NonNilSucc == st.Block() || t.NonNilSucc.Dominates(st.Block()) {
 							// the only allowed way around it is the "already in ERROR" test
 							okSkip := true
-							for _, a := range an.Atoms(st.Block()) {
-								_ = a
+							for _, g := range an.ControlConds(st.Block()) {
+								if g.LoopHeader || g.LoopExit || !an.Dominates(call, g.If) {
+									continue
+								}
+								for _, a := range an.CondAtoms(g.V, g.Val) {
+									allowed := false
+									if a.Y != nil && (an.IsNilConst(a.Y) || an.IsNilConst(a.X)) && (an.DerivesFrom(a.X, call) || an.DerivesFrom(a.Y, call)) {
+										allowed = true // the error of the GO_ERROR attempt
+									}
+									if cl, isCall := a.X.(*ssa.Call); isCall && a.Y != nil {
+										if str, isS := an.ConstString(a.Y); isS && str == "ERROR" && (an.MethodName(&cl.Call) == "Current" || an.MethodName(&cl.Call) == "CurrentState") {
+											allowed = true // already in ERROR
+										}
+									}
+									if !allowed {
+										okSkip = false
+									}
+								}
 							}
 							if okSkip {
 								forced = true
@@ -339,7 +359,7 @@ func r03d(c *an.Ctx) {
 			}
 		}
 		// the GO_ERROR attempt is made in a closure created under `state == ERROR`
-		c.Ob("(*core/environment.Environment).subscribeToWfState|ERROR->GO_ERROR", fn.Pos(), ok && forced, "when the workflow state becomes ERROR the watcher must attempt GO_ERROR (%v) and force ERROR when that is refused (%v)", ok, forced)
+		c.Ob("(*core/environment.Environment).subscribeToWfState|ERROR->GO_ERROR", fn.Pos(), ok && forced, "when the workflow state becomes ERROR the watcher must attempt GO_ERROR (%v) and force ERROR when that is refused - whenever it is refused and the environment is not in ERROR already, with no further condition (%v)", ok, forced)
 	}
 	for _, name := range []string{"Manager.CreateEnvironment", "Manager.CreateAutoEnvironment"} {
 		f := c.MustFn("core/environment", name)
@@ -409,6 +429,25 @@ func r03e(c *an.Ctx) {
 	if upd == nil {
 		c.Ob(key+"|role->ERROR", fn.Pos(), false, "no UpdateState(sm.ERROR) on the task's role in the device-event handler")
 		return
+	}
+	// the environment whose run is stopped is the task's own (its current owner), not the one named by the event
+	if tie != nil {
+		for _, ci := range an.Calls(fn, func(nm string, _ ssa.CallInstruction) bool {
+			return strings.HasSuffix(nm, "core/environment.Manager).environment")
+		}) {
+			if !constsLeadingTo(fn, ci, "DeviceEventType")[*tie] {
+				continue
+			}
+			own := false
+			for _, l := range an.BackSlice(ci.Common().Args[len(ci.Common().Args)-1], an.SliceOpts{LeafCall: func(nm string, cl *ssa.Call) bool {
+				return an.MethodName(&cl.Call) == "GetEnvironmentId" && strings.Contains(nm, "core/task.Task")
+			}}) {
+				if l.Kind == "call" {
+					own = true
+				}
+			}
+			c.Ob(key+"|environment-of-the-task", ci.Pos(), own, "the environment handling the task's internal error is not looked up by the task's own GetEnvironmentId(): for a task that changed owner the event's label names the previous environment, the lookup fails (or hits the wrong environment) and the failure never reaches the owner")
+		}
 	}
 	// where is the closure created (if in a goroutine)?
 	var site ssa.Instruction = upd
@@ -547,5 +586,35 @@ func r03g(c *an.Ctx) {
 	}
 	if n == 0 {
 		c.Lost("send of NewTaskStatusMessage on taskman.MessageChannel in the closure returned by schedulerState.statusUpdate")
+	}
+}
+
+// R03h: the environment learns of the workflow's state only through the ParentAdapter's fan-out, and that hand-over
+// is lossy (a subscriber that is not receiving at that instant misses the value). Every update of the root must
+// therefore be offered to the subscribers again: an update filtered out as "no change" may be the only one that
+// would have been received.
+func r03h(c *an.Ctx) {
+	c.Rule("R03h", "ParentAdapter.updateState/updateStatus: every update is offered to the subscribers (no return before the fan-out)", 2)
+	for _, name := range []string{"ParentAdapter.updateState", "ParentAdapter.updateStatus"} {
+		fn := c.MustFn("core/workflow", name)
+		if fn == nil {
+			continue
+		}
+		var ranges []ssa.Instruction
+		an.Instrs(fn, func(in ssa.Instruction) {
+			if r, ok := in.(*ssa.Range); ok {
+				if f := an.FieldOf(r.X); f != nil && strings.HasSuffix(f.Name(), "Subscriptions") {
+					ranges = append(ranges, r)
+				}
+			}
+		})
+		if len(ranges) == 0 {
+			c.Lost("the loop over the subscriptions in " + name)
+			continue
+		}
+		c.Subject()
+		skip := an.PathFromEntryAvoiding(fn, an.IsExit, ranges)
+		c.Ob("(*core/workflow."+strings.Replace(name, ".", ").", 1)+"|always-fans-out", fn.Pos(), !skip,
+			"the function can return without offering the value to the subscribers: the hand-over to the environment's watcher is a non-blocking send that is dropped when the watcher is busy, so an update suppressed as a repetition can be the one that would have got through - the environment then never leaves RUNNING")
 	}
 }
